@@ -403,3 +403,17 @@ seed('c06-so2-no-wrap', 'C06', [(SO2C, "    return (d > pi) ? 2.0 * pi - d : d;"
 seed('c06-n-so2-extent-expr', 'C06', [(SO2C, "double ompl::base::SO2StateSpace::getMaximumExtent() const\n{\n    return pi;", "double ompl::base::SO2StateSpace::getMaximumExtent() const\n{\n    return 2.0 * pi / 2.0;")], None)
 seed('c06-n-time-extent-larger', 'C06', [('src/ompl/base/spaces/src/TimeStateSpace.cpp', "    return bounded_ ? maxTime_ - minTime_ : 1.0;", "    return bounded_ ? 2.0 * (maxTime_ - minTime_) : 1.0;")], None)
 seed('c06-time-bounded-extent-half', 'C06', [('src/ompl/base/spaces/src/TimeStateSpace.cpp', "    return bounded_ ? maxTime_ - minTime_ : 1.0;", "    return bounded_ ? 0.5 * (maxTime_ - minTime_) : 1.0;")], 'R06g')
+RRTS = 'src/ompl/geometric/planners/rrt/src/RRTstar.cpp'
+RRTCC = 'src/ompl/geometric/planners/rrt/src/RRTConnect.cpp'
+BITRRT = 'src/ompl/geometric/planners/rrt/src/BiTRRT.cpp'
+seed('c04-rrtstar-rewire-inccost-lost', 'C04', [(RRTS, "                            nbh[i]->incCost = nbhIncCost;\n", "")], 'R04f')
+seed('c04-rrtstar-delaycc-cost-lost', 'C04', [(RRTS, "                        motion->cost = costs[*i];\n", "")], 'R04f')
+seed('c04-n-rrtstar-triple-reordered', 'C04', [(RRTS, "                            nbh[i]->parent = motion;\n                            nbh[i]->incCost = nbhIncCost;\n                            nbh[i]->cost = nbhNewCost;", "                            nbh[i]->incCost = nbhIncCost;\n                            nbh[i]->cost = nbhNewCost;\n                            nbh[i]->parent = motion;")], None)
+seed('c01-bitrrt-no-reload', 'C01', [(BITRRT, "            nearest = next;\n\n            // xmotion may get trashed during extension, so we reload it here\n            si_->copyState(xmotion->state,\n                           nmotion->state);  // xmotion may get trashed during extension, so we reload it here", "            nearest = next;")], 'R01j')
+seed('c01-n-bitrrt-reload-at-top', 'C01', [(BITRRT, "        // This function MAY trash xmotion\n        result = extendTree(nearest, tree, xmotion, next);", "        si_->copyState(xmotion->state, nmotion->state);\n        result = extendTree(nearest, tree, xmotion, next);")], None)
+seed('c01-rrtconnect-flip-dropped', 'C01', [(RRTCC, "            if (gsc == TRAPPED)\n                tgi.start = !tgi.start;\n", "")], 'R01k')
+seed('c01-rrtconnect-flip-on-advanced', 'C01', [(RRTCC, "            if (gsc == TRAPPED)\n                tgi.start = !tgi.start;\n", "            if (gsc == ADVANCED)\n                tgi.start = !tgi.start;\n")], 'R01k')
+seed('c01-n-rrtconnect-named-trapped', 'C01', [(RRTCC, "            if (gsc == TRAPPED)\n                tgi.start = !tgi.start;\n", "            const bool trapped = (gsc == TRAPPED);\n            if (trapped)\n                tgi.start = !tgi.start;\n")], None)
+seed('c03-rrtstar-prune-chains-dropped', 'C03', [(RRTS, "        for (const auto &r : chainsToRecheck)\n            // Add the motion back to the NN struct:\n            nn_->add(r);\n", "")], 'R03j')
+seed('c03-n-rrtstar-prune-chains-while', 'C03', [(RRTS, "        for (const auto &r : chainsToRecheck)\n            // Add the motion back to the NN struct:\n            nn_->add(r);\n", "        while (!chainsToRecheck.empty())\n        {\n            nn_->add(chainsToRecheck.front());\n            chainsToRecheck.pop_front();\n        }\n")], None)
+seed('c03-rrtconnect-flip-dropped', 'C03', [(RRTCC, "            if (gsc == TRAPPED)\n                tgi.start = !tgi.start;\n", "")], 'R03k')
